@@ -576,6 +576,9 @@ extern "C" int harness_main() {
 #if defined(CHECK_C04) || defined(CHECK_C10) || defined(CHECK_C11)
     o.run.check_inputs_fresh = true;
 #endif
+#ifdef MIDRUN_EDITS
+    if (inv < HISTORY - 1) { o.run.edit_during_run = true; o.run.check_inputs_fresh = false; }     // (what "up to date" means changes under a build whose sources are edited while it runs)
+#endif
 #ifdef HISTORY_FAIL
     if (inv < HISTORY - 1) { o.run.may_fail = true; o.run.failed_touch = true; o.failures_allowed = 1 + verif_choice("keep_going_minus_1", 2); }
 #endif
@@ -587,6 +590,10 @@ extern "C" int harness_main() {
     if (!r.parsed || !r.added) { verif_reach("add-target-error"); continue; }
     observe(r);
     VERIF_ASSERT(!r.stuck, "C06: ninja never gives up with 'stuck'");
+#ifdef MIDRUN_EDITS
+    { bool mid = false; for (size_t i = 0; i < r.events.size(); i++) mid = mid || r.events[i].compare(0, 8, "midedit ") == 0;
+      if (mid) { verif_reach("edited-while-running"); continue; } }     // a source changed under this build: nothing is claimed for it, the NEXT successful build must pick the edit up
+#endif
     if (r.rc == 0) {
       verif_reach(r.up_to_date ? "nothing-to-do" : "built");
       if (inv > 0 && !r.up_to_date) verif_reach("incremental-build");
